@@ -348,8 +348,8 @@ let run_monitor (id : string) (case : string list) (result : string) : string =
               if not (obs_ok !seen !cur states o) then
                 bad := (k, (match o with
                     | OSent p ->
-                      (* (1) the packet's interface is unselected now, but every entry of it was absent from
-                             the OS table when the selection that unselects it was made *)
+                      (* (1) the packet's interface is unselected now, but an entry of it (which the daemon may
+                             still hold) was absent from the OS table when the selection that unselects it was made *)
                       let v4 = (match p.p_dest with DMulticast b -> b | DUnicast (a, _) -> (match a with V4 _ -> true | _ -> false)) in
                       let cands = List.filter (fun e -> e.i_index = p.p_if
                                                         && (match e.i_addr.ia_ip with V4 _ -> v4 | V6 _ -> not v4)) !seen in
@@ -357,7 +357,7 @@ let run_monitor (id : string) (case : string list) (result : string) : string =
                           | RAddr oct -> List.exists (fun e -> e.i_index = p.p_if
                                                               && valid_ip_on_intf (if List.length oct = 4 then V4 (n_of_octets oct) else V6 (n_of_octets oct)) e.i_addr) !seen
                           | _ -> true) (p.p_answers @ p.p_additionals) in
-                      let excused = addr_fine && cands <> [] && List.for_all (fun e ->
+                      let excused = addr_fine && List.exists (fun e ->
                           match last_matching final !pushed_os e with
                           | Some ((_, false), o) -> not (mem_iface e o)
                           | _ -> false) cands in
